@@ -9,6 +9,7 @@ import (
 	"math"
 	"strconv"
 	"strings"
+	"sync"
 	"testing"
 	"time"
 
@@ -773,8 +774,107 @@ func runCustom(c CustomCase, o *vh.Obs) *vh.Failure {
 	return nil
 }
 
+// ---------------------------------------------------------------- concurrent writers
+
+// ConcCase: several goroutines each write (and read back) their own mesh with their own writer at the
+// same time. Nothing is shared between them, so every output must be byte-identical to the sequential
+// one: an exporter may not keep hidden state between calls.
+type ConcCase struct {
+	Tris    []int // triangles per mesh (one mesh per goroutine)
+	UV      []bool
+	Formats []int
+	Reps    int
+}
+
+func genConc(t *rapid.T) ConcCase {
+	n := rapid.IntRange(2, 8).Draw(t, "writers")
+	c := ConcCase{Reps: rapid.IntRange(2, 12).Draw(t, "reps")}
+	for i := 0; i < n; i++ {
+		c.Tris = append(c.Tris, rapid.IntRange(200, 3000).Draw(t, "tris"))
+		c.UV = append(c.UV, rapid.Bool().Draw(t, "uv"))
+		c.Formats = append(c.Formats, rapid.IntRange(0, 2).Draw(t, "format"))
+	}
+	return c
+}
+
+func concMesh(k, tris int, uv bool) modeling.Mesh {
+	n := tris + 2
+	pos := make([]vector3.Float64, n)
+	tex := make([]vector2.Float64, n)
+	for i := range pos {
+		pos[i] = vector3.New(float64(i*(k+1)%977)/8, float64(i%31)/4, float64(k))
+		tex[i] = vector2.New(float64(i%64)/64, float64((i*(k+3))%128)/128)
+	}
+	idx := make([]int, 0, 3*tris)
+	for i := 0; i < tris; i++ {
+		idx = append(idx, i, (i+1+k)%n, i+2)
+	}
+	m := modeling.NewTriangleMesh(idx).SetFloat3Attribute(modeling.PositionAttribute, pos)
+	if uv {
+		m = m.SetFloat2Attribute(modeling.TexCoordAttribute, tex)
+	}
+	return m
+}
+
+func runConc(c ConcCase, o *vh.Obs) *vh.Failure {
+	n := len(c.Tris)
+	if n < 2 || len(c.UV) != n || len(c.Formats) != n || n > 16 {
+		return nil
+	}
+	meshes := make([]modeling.Mesh, n)
+	want := make([][]byte, n)
+	for i := range meshes {
+		meshes[i] = concMesh(i, c.Tris[i], c.UV[i])
+		buf := &bytes.Buffer{}
+		if err := ply.Write(buf, meshes[i], formats[c.Formats[i]%3]); err != nil {
+			return vh.Failf("conc/sequential-write-error", "%v", err)
+		}
+		want[i] = buf.Bytes()
+	}
+	var wg sync.WaitGroup
+	bad := make([]string, n)
+	start := make(chan struct{})
+	for i := 0; i < n; i++ {
+		wg.Add(1)
+		go func(i int) {
+			defer wg.Done()
+			<-start
+			for r := 0; r < c.Reps && bad[i] == ""; r++ {
+				buf := &bytes.Buffer{}
+				if err := ply.Write(buf, meshes[i], formats[c.Formats[i]%3]); err != nil {
+					bad[i] = fmt.Sprintf("writer %d: %v", i, err)
+					return
+				}
+				if !bytes.Equal(buf.Bytes(), want[i]) {
+					k := 0
+					for k < len(want[i]) && k < buf.Len() && want[i][k] == buf.Bytes()[k] {
+						k++
+					}
+					bad[i] = fmt.Sprintf("writer %d (format %d, %d triangles, uv %v), repetition %d: output differs from the sequential output of the same mesh at byte %d of %d", i, c.Formats[i]%3, c.Tris[i], c.UV[i], r, k, len(want[i]))
+					return
+				}
+				if _, err := ply.ReadMesh(bytes.NewReader(buf.Bytes())); err != nil {
+					bad[i] = fmt.Sprintf("writer %d: read back: %v", i, err)
+					return
+				}
+			}
+		}(i)
+	}
+	close(start)
+	wg.Wait()
+	o.NonTrivial()
+	o.Class(fmt.Sprintf("concurrent-writers/%d", n))
+	for _, b := range bad {
+		if b != "" {
+			return vh.Failf("conc/output-differs-from-sequential", "%s", b)
+		}
+	}
+	return nil
+}
+
 func TestC04(t *testing.T) {
 	vh.Drive(t, vh.Spec[Case]{Name: "default-writer", Quick: 40000, Thorough: 1500000, Gen: genCase, Run: runCase, Deadline: 20 * time.Second})
+	vh.Drive(t, vh.Spec[ConcCase]{Name: "concurrent-writers", Quick: 240, Thorough: 8000, Gen: genConc, Run: runConc, Repeat: 20})
 	vh.Drive(t, vh.Spec[CustomCase]{Name: "custom-writers", Quick: 40000, Thorough: 1500000, Gen: genCustom, Run: runCustom, Deadline: 20 * time.Second})
 }
 
